@@ -162,7 +162,6 @@ Proof.
     split; [repeat split; cbn [svs ecs alarms]; assumption|exact A].
   - destruct (negb (known k (alarms t))); cbn [fst]; [split; [repeat split; assumption|exact R]|].
     split; [|exact R]. unfold upd_alarm; repeat split; cbn [svs ecs alarms]; try assumption. rewrite keys_map; [exact W3|]. intro p. destruct (id_eqb (fst p) k); reflexivity.
-  - destruct (forallb _ _); cbn [fst]; split; try (repeat split; assumption); exact R.
   - destruct (rlookup k (alarms t)) as [a|]; [|split; [repeat split; assumption|exact R]]. destruct (al_set a); cbn [fst]; [split; [repeat split; assumption|exact R]|].
     split; [|exact R]. unfold upd_alarm; repeat split; cbn [svs ecs alarms]; try assumption. rewrite keys_map; [exact W3|]. intro p. destruct (id_eqb (fst p) k); reflexivity.
   - destruct (rlookup k (alarms t)) as [a|]; [|split; [repeat split; assumption|exact R]]. destruct (negb (al_set a)); cbn [fst]; [split; [repeat split; assumption|exact R]|].
@@ -206,17 +205,22 @@ Proof.
   - split; [reflexivity|]. eexists. split; [left; reflexivity|]. left. unfold m_name_ec, all_or. destruct ids as [|i r]; [|reflexivity].
     f_equal. exact (lookup_own (fun k c => (k, ec_name c, Some (ec_min c, ec_max c, ec_def c), ec_unit c)) (fun k => (k, ""%string, None, ""%string)) (ecs t) W2).
   - rewrite known_lookup. destruct (rlookup k (alarms t)) as [a|]; cbn [negb fst snd]; (split; [reflexivity|]); eexists; (split; [left; reflexivity|left; reflexivity]).
-  - unfold all_or. destruct ids as [|i r].
-    + cbn [forallb]. assert (F : forallb (fun k => known k (alarms t)) (map fst (alarms t)) = true).
-      { apply forallb_forall. intros k Hk. apply in_map_iff in Hk as [p [<- Hp]]. unfold known. apply existsb_exists. exists p. split; [exact Hp|apply id_eqb_refl]. }
-      rewrite F. cbn [fst snd]. split; [reflexivity|]. eexists. split; [left; reflexivity|left; reflexivity].
-    + assert (Q : forallb (fun k => known k (alarms t)) (i :: r) = forallb (fun k => match rlookup k (alarms t) with Some _ => true | None => false end) (i :: r)).
-      { apply forallb_ext'. intro k. apply known_lookup. }
-      rewrite Q. clear Q. destruct (forallb (fun k => match rlookup k (alarms t) with Some _ => true | None => false end) (i :: r)); [|exact I]. cbn [fst snd]. split; [reflexivity|]. eexists. split; [left; reflexivity|left; reflexivity].
+  - split; [reflexivity|]. eexists. split; [left; reflexivity|left; reflexivity].
   - split; [reflexivity|]. eexists. split; [left; reflexivity|left; reflexivity].
   - destruct (rlookup k (alarms t)) as [a|]; [|exact I]. destruct (al_set a) eqn:S; cbn [fst snd]; (split; [reflexivity|]); eexists; (split; [left; reflexivity|]); left;
       [reflexivity|]. unfold alcd. cbn [al_code al_set]. destruct (al_enabled a); reflexivity.
   - destruct (rlookup k (alarms t)) as [a|]; [|exact I]. destruct (al_set a) eqn:S; cbn [negb fst snd]; (split; [reflexivity|]); eexists; (split; [left; reflexivity|]); left;
       [|reflexivity]. unfold alcd. cbn [al_code al_set]. rewrite Z.add_0_r. destruct (al_enabled a); reflexivity.
   - split; [reflexivity|]. eexists. split; [left; reflexivity|left; reflexivity].
+Qed.
+
+(* S5F5 is never aborted: one row per requested ALID, in request order, also for alarms that do not exist *)
+Lemma list_alarms_rows t ids : ids <> [] ->
+  exists rows, snd (ed_step t (DListAlarms ids)) = DAlarms rows /\ map (fun r => fst (fst r)) rows = ids /\
+    forall k, In k ids -> In (match rlookup k (alarms t) with Some a => (k, alcd a, al_text a) | None => (k, NO_ALCD, ""%string) end) rows.
+Proof.
+  intro N. destruct ids as [|i r]; [contradiction|]. cbn [ed_step snd]. eexists. split; [reflexivity|]. split.
+  - rewrite map_map. rewrite <- (map_id (i :: r)) at 2. apply map_ext. intro k. destruct (rlookup k (alarms t)); reflexivity.
+  - intros k Hk. apply in_map_iff. exists k. split; [|exact Hk]. destruct (rlookup k (alarms t)) as [a|]; [|reflexivity].
+    unfold al_row, alcd, ALARM_SET. reflexivity.
 Qed.
